@@ -312,6 +312,9 @@ func (c *Checker) BatchParams(r *report.Report) {
 				key := "batch-param/" + load.FuncName(g) + "/called-from/" + load.FuncName(f)
 				pos := p.Pos(ci.Pos())
 				args := ci.Common().Args
+				if wi == -1 {
+					continue // the batch is the callee's only way to the writer: nothing to agree with
+				}
 				if wi < 0 || bi >= len(args) || wi >= len(args) {
 					r.Unknown("A1", key, pos, load.FuncName(g)+" takes a BitsWriterBatch but not exactly one BitsWriter: which writer the batch wraps is not known")
 					continue
